@@ -537,6 +537,7 @@ Inductive scen :=
 | ScUpCloseDuringOutage (* Upstream.Close during such an outage, then Conn.Close *)
 | ScFlushAbandoned      (* pos Flush calls with a cancelled context, then Write+Flush (call under test) and Close *)
 | ScFloodThenRequest    (* pos uncollected calls, reply calls, chunks, metadata, then a request answered at once *)
+| ScReadManyGroups      (* ReadDataPoints of one chunk with pos alias-addressed groups, ack flush every 1 ms, State() polled *)
 | ScUpCloseSlowList.    (* Upstream.Close, ack withheld, both deadlines expire while sent.List is in progress *)
 Inductive beh := BAnswer | BDelay | BDrop | BMisaddr | BDisconnect.
 
@@ -557,7 +558,8 @@ Definition scen_eqb (a b : scen) : bool :=
   | ScMetaAfterClose, ScMetaAfterClose | ScStateAfterLateAck, ScStateAfterLateAck
   | ScCloseWhilePending, ScCloseWhilePending | ScCloseDuringOutage, ScCloseDuringOutage
   | ScUpCloseDuringOutage, ScUpCloseDuringOutage | ScUpCloseSlowList, ScUpCloseSlowList
-  | ScFlushAbandoned, ScFlushAbandoned | ScFloodThenRequest, ScFloodThenRequest => true
+  | ScFlushAbandoned, ScFlushAbandoned | ScFloodThenRequest, ScFloodThenRequest
+  | ScReadManyGroups, ScReadManyGroups => true
   | _, _ => false
   end.
 
@@ -584,6 +586,7 @@ Definition scen_procs (sc : scen) (pr : params) : list proc :=
   | ScUpCloseSlowList => [upClose_slow ctx (p_cto pr) (p_other pr) 1]      (* p_other = duration of List *)
   | ScFlushAbandoned => [upWrite ctx; upFlush ctx (fun r => Ret r)]
   | ScFloodThenRequest => [connRequest 2 ctx 1]
+  | ScReadManyGroups => [readDP ctx]
   end.
 (* which of them is the call under test *)
 Definition scen_target (sc : scen) : nat :=
@@ -599,6 +602,7 @@ Definition done_flag (sc : scen) (pos : N) : flag :=
   | ScCallWait, _ => FReplyCall
   | ScUpClose, 0 => FAcked
   | ScFlushAbandoned, _ => FFlushRes
+  | ScReadManyGroups, _ => FDpAvail
   | _, _ => FReply 1
   end.
 
@@ -723,7 +727,7 @@ Definition blk_ok (c : blk_case) : bool :=
      | ScConnClose | ScCloseWhilePending | ScCloseDuringOutage => outcome_eqb (b_follow c) OConnClosed && (b_follow_ms c <=? b_slack c)
      (* "later calls still work": after abandoned flushes / an inbound flood nobody collects, a call
         that a healthy broker answers at once succeeds, and so does the Close after it *)
-     | ScFlushAbandoned | ScFloodThenRequest => outcome_eqb (b_class c) ONil && outcome_eqb (b_follow c) ONil
+     | ScFlushAbandoned | ScFloodThenRequest | ScReadManyGroups => outcome_eqb (b_class c) ONil && outcome_eqb (b_follow c) ONil
      | _ => outcome_eqb (b_follow c) ONil
      end.
 
